@@ -103,7 +103,14 @@ def per_case(case, rd, outs, r):
 def run(ctx: Ctx) -> Result:
     res = Result()
     cs = [Case.from_json(ctx.replay['replay'])] if ctx.replay is not None else cases(ctx, res)
-    run_cases(ctx, cs, res, per_case=per_case, use_ref=True, sig='raise-corrupts-detection')
+    # every other event carries its number as a value with no JSON form (predlang.Num): the decider has no business with
+    # the JSON text of the events it matches, least of all on the path that handles a failing predicate
+    from harness import predlang as pl
+    pl.OPAQUE['on'] = True
+    try:
+        run_cases(ctx, cs, res, per_case=per_case, use_ref=True, sig='raise-corrupts-detection')
+    finally:
+        pl.OPAQUE['on'] = False
     return res
 
 
@@ -117,7 +124,12 @@ def search(ctx: Ctx) -> Result:
                 for k in (0, 1, 2):
                     for s in ctx.rng.sample(streams, 6):
                         yield Case([('ph', [with_raise(pat, site, k), BYSTANDER])], 0, ev_ops(s), 'search')
-    run_cases(Ctx(ctx.prop, ctx.tier, ctx.seed, ctx.rng), gen(), res, per_case=per_case, use_ref=True, sig='raise-corrupts-detection')
+    from harness import predlang as pl
+    pl.OPAQUE['on'] = True
+    try:
+        run_cases(Ctx(ctx.prop, ctx.tier, ctx.seed, ctx.rng), gen(), res, per_case=per_case, use_ref=True, sig='raise-corrupts-detection')
+    finally:
+        pl.OPAQUE['on'] = False
     res.disagreements = []
     return res
 
